@@ -127,3 +127,4 @@ for e in all_entries():
 
 # quick tier: entries added for other properties' sake run in the thorough tier only here
 demote(OBLIGATIONS, ['seq_optc', 'set_chx', 'seq_hitags', 'seq_hitags.E', 'seq_wide', 'seq_optnull', 'seqof_choice_cons'])
+demote(OBLIGATIONS, ['set_optc', 'seq_defl', 'seq_any_def', 'seq_2ch', 'seqof_octs.E'])
